@@ -11,6 +11,7 @@ pub mod c07;
 pub mod c09;
 pub mod c10;
 pub mod c11;
+pub mod c12;
 pub mod c13;
 pub mod store_h;
 pub mod tmodel;
@@ -74,6 +75,7 @@ pub fn dispatch(id: &str, tier: Tier, replay: Option<&str>) -> i32 {
         "C09" => c09::run(tier),
         "C10" => c10::run(tier),
         "C11" => c11::run(tier),
+        "C12" => c12::run(tier),
         "C13" => c13::run(tier),
         "C14" => c14::run(tier),
         "C15" => c15::run(tier),
